@@ -41,6 +41,11 @@ def programs():
                                          "overloads": [["x", {"expr": O("B")}], ["y", {"expr": {"k": "tmpl", "text": "t{C}", "params": []}}]]},
                                      d2={"args": [["a", O("A", dk="const", dv=0)]], "dispatch": O("D", dk="const", dv="x"),
                                          "overloads": [["x", {"expr": O("S.X", dk="const", dv="sx")}], ["y", {"expr": O("E", dk="const", dv=1)}]]}))
+    # an unhashable dispatch value (a list / section under the dispatch key) matches no branch: default or SwitchError
+    add("unhashable-dispatch", prog({"k": "tuple", "items": [
+        {"k": "coalesce", "members": [{"k": "switch", "disp": "D", "table": [["x", O("A")], ["y", O("B")]]}, C("no-branch")]},
+        {"k": "switch", "disp": "E", "table": [["x", O("A")]], "default": O("C", dk="const", dv="dflt")}, DS(1)]},
+        d1={"args": [["a", O("A", dk="const", dv=0)]], "dispatch": "D", "overloads": [["x", {"expr": O("B")}]]}))
     add("abstract", prog({"k": "coalesce", "members": [DS(1), C("fallback")]},
                          d1={"args": [], "abstract": True, "dispatch": "D", "overloads": [["x", {"args": [["b", O("B")]]}], ["y", {"args": []}]]}))
     # 3 templated references
@@ -179,6 +184,8 @@ def dictionaries():
         {"L": ["x", "y"], "A": 1, "B": 2},
         {"L": ["x"], "A": 1},
         {"D": "x"},
+        {"D": ["x"], "E": {"K": "x"}},
+        {"D": ["x"], "E": ["x"], "A": 1, "B": 2},
         {"D": "y"},
         {"D": "z"},
         {"D": "x", "B": 5},
